@@ -16,7 +16,7 @@
 (*   their affinity is the exact box IoU); kind = "rnd": g holds the kind   *)
 (*   name only and the affinity of a pair is the observed compute_affinity. *)
 (* Output: runs (one per exact unit) of                                     *)
-(*   [raised, clips |-> <<[id, score, m |-> <<[s, t, a, sc]>>]>>, score,    *)
+(*   [raised, cs (hundredths of a second per tick), clips |-> <<[id, score, m |-> <<[s, t, a, sc]>>]>>, score, *)
 (*    aff |-> per input clip the matrix [prediction][annotation] of         *)
 (*    compute_affinity]   s / t: <<>> or <<1-based index into the clip's    *)
 (*   predicted / annotated sound events>>; doubles as [l, h, r] (Affinity). *)
@@ -66,8 +66,21 @@ RegionBox(g) == LET S == Range(Aff!Shells(g)) IN
     <<SetMin({b[1] : b \in S}), SetMin({b[2] : b \in S}), SetMax({b[3] : b \in S}), SetMax({b[4] : b \in S})>>
 InsideHole(x, y) == LET b == RegionBox(x) IN
     \E h \in Range(Aff!Holes(y)) : h[1] < b[1] /\ b[3] < h[3] /\ h[2] < b[2] /\ b[4] < h[4]
-RegionsMeet(x, y) == BoxesMeet(RegionBox(x), RegionBox(y)) /\ ~InsideHole(x, y) /\ ~InsideHole(y, x)
-BoxAff(p, a)    == Aff!RectIoU(Some(p.g), Some(a.g))
+(* Time-only events (TimeStamp, TimeInterval) against anything: the affinity is the IoU of the time extents, a        *)
+(* TimeStamp grown by the matcher's default time buffer of 0.01 s (a TimeInterval under either reading of C06, r).     *)
+(* Extents are counted in hundredths of a second: S = hundredths per tick (100 at unit 1 s, 25 at unit 1/4 s; the run   *)
+(* says which, r.cs).  Affinity!TimeIoU / PExt's closed form, at that scale.                                           *)
+TimeKind(g) == g.type \in Aff!TimeKinds
+CExt(g, S, r) ==
+    LET x == TimeExtent(g, Aff!FMAXT)  grown == <<Max(x[1] * S - 1, 0), x[2] * S + 1>>  asis == <<x[1] * S, x[2] * S>> IN
+    CASE g.type = "TimeStamp"    -> grown
+      [] g.type = "TimeInterval" -> IF r = 1 THEN grown ELSE asis
+      [] OTHER                   -> asis                       \* lattice events are otherwise regions: never buffered
+DetAff(x, y, S, r) == IF TimeKind(x) \/ TimeKind(y) THEN Aff!TimeIoU(CExt(x, S, r), CExt(y, S, r)) ELSE Aff!RectIoU(x, y)
+RegionsMeet(x, y) ==
+    IF TimeKind(x) \/ TimeKind(y)
+    THEN LET a == CExt(x, 100, 1)  b == CExt(y, 100, 1) IN Max(a[1], b[1]) <= Min(a[2], b[2])
+    ELSE BoxesMeet(RegionBox(x), RegionBox(y)) /\ ~InsideHole(x, y) /\ ~InsideHole(y, x)
 
 (* ---------------- clauses on one clip evaluation ---------------- *)
 (* P, A: the clip's predicted / annotated events; M: its matches.  Eq(v, pq), Zero(v): how a reported number    *)
@@ -82,10 +95,10 @@ LatOverlapOf(M, P, A) ==
     InRange(M, P, A) => \A k \in DOMAIN M : IsPair(M[k]) =>
         LET p == P[Some(M[k].s)]  a == A[Some(M[k].t)]
         IN  HasGeom(p) /\ HasGeom(a) /\ RegionsMeet(Some(p.g), Some(a.g))
-LatAffinityOf(M, P, A, Eq(_, _)) ==
+LatAffinityOf(M, P, A, S, Eq(_, _)) ==
     InRange(M, P, A) => \A k \in DOMAIN M : IsPair(M[k]) =>
         LET p == P[Some(M[k].s)]  a == A[Some(M[k].t)]
-        IN  (HasGeom(p) /\ HasGeom(a)) => Eq(M[k].a, BoxAff(p, a))
+        IN  (HasGeom(p) /\ HasGeom(a)) => \E r \in Aff!Readings : Eq(M[k].a, DetAff(Some(p.g), Some(a.g), S, r))
 \* expected score of every match, given who was matched with whom (quarters)
 ExpScores(M, P, A, V) == [k \in DOMAIN M |-> IF IsPair(M[k]) THEN ExpScore(P[Some(M[k].s)], A[Some(M[k].t)], V)[1] ELSE 0]
 
@@ -121,7 +134,7 @@ HoldsClip(cl, o, r, k) ==
                     LET i1 == Some(M[j].s)  i2 == Some(M[j].t)
                     IN  HasGeom(P[i1]) /\ HasGeom(A[i2]) /\ Aff!Ret(F[i1][i2]) /\ F[i1][i2].l[1] = 1
       [] cl = "PairAffinity" ->
-            IF IsLat(o) THEN LatAffinityOf(M, P, A, EqD)
+            IF IsLat(o) THEN LatAffinityOf(M, P, A, r.cs, EqD)
             ELSE InRange(M, P, A) => \A j \in DOMAIN M : IsPair(M[j]) =>
                     LET i1 == Some(M[j].s)  i2 == Some(M[j].t)
                     IN  (HasGeom(P[i1]) /\ HasGeom(A[i2])) => Aff!Close(M[j].a, F[i1][i2])
